@@ -12,8 +12,9 @@
 (***************************************************************************)
 EXTENDS GCImpl, Json
 
-VARIABLES iv, stage
-mvars == <<vars, iv, stage>>
+VARIABLES iv, stage,
+          wl, wk, wr      \* MCWalkSpec only: the work list of the walk, the manifests and the responses walked so far
+mvars == <<vars, iv, stage, wl, wk, wr>>
 
 CatFile == JsonDeserialize("cat.json")
 R0n == CatFile.repos[1]
@@ -30,13 +31,14 @@ MCInit ==
   /\ \E D \in SUBSET ManDigs : man = [r \in {R0n} |-> [d \in D |-> CatFile.mans[CatFile.digs[d].c].mt]]
   /\ blob = [r \in {R0n} |-> {}] /\ tag = [r \in {R0n} |-> <<>>] /\ young = [r \in {R0n} |-> {}]
   /\ iv = [top |-> {}, resp |-> {}] /\ stage = 0
+  /\ wl = {} /\ wk = {} /\ wr = {}
   /\ Quiet
 
 \* untagged manifests that an index of the repository lists may be tracked through that index alone
 ChildOnlyOK(D, tg, d) == d \notin tg /\ \E y \in D : d \in KidsOf(y)
 MCNext ==
   /\ stage = 0 /\ stage' = 1
-  /\ UNCHANGED <<man, sess, nsess, clk, base, resp>>
+  /\ UNCHANGED <<man, sess, nsess, clk, base, resp, wl, wk, wr>>
   /\ LET D == DOMAIN man[R0n] IN
      \E u, w, dg, g \in BOOLEAN :
      \E missing \in {{}} \cup {{b} : b \in BlobDigs} :
@@ -55,6 +57,42 @@ MCNext ==
           /\ \E RY \in (IF g THEN SUBSET S ELSE {{}}) :
                 iv' = [top |-> {[d |-> d, t |-> d \in tg] : d \in D \ co}, resp |-> {[s |-> s, y |-> s \in RY] : s \in S}]
 MCSpec == MCInit /\ [][MCNext]_mvars
+
+-----------------------------------------------------------------------------
+\* The walk as the code runs it: a work list from which entries are popped one at a time (here: ANY entry, a superset of
+\* the orders the code's stack produces), the `walked` map, and the scan of the responses whenever the list runs empty.
+\* WalkAgrees: whatever the order, the walk ends with exactly what GCImpl's fixed point says.  Explored for the shapes of
+\* the policy that walks the most (untagged and dangling collection, no grace period).
+WalkRescans == TRUE        \* (sanity run: WalkRescans <- NoRescan makes the stepwise walk stop at the first empty list)
+MItem(d) == [k |-> "m", x |-> d]
+RItem(s) == [k |-> "r", x |-> s]
+WalkStart ==
+  /\ stage = 1 /\ Cfg.untagged /\ Cfg.dangling /\ ~Cfg.grace
+  /\ stage' = 2
+  /\ wl' = {MItem(e.d) : e \in {x \in iv.top : KeepTop(R0n, x)}} \cup {RItem(x.s) : x \in {y \in iv.resp : KeepResp(R0n, y)}}
+  /\ wk' = {} /\ wr' = {}
+  /\ UNCHANGED <<vars, iv>>
+WalkPop ==
+  /\ stage = 2 /\ wl # {}
+  /\ \E it \in wl :
+       IF it.k = "m"
+       THEN IF it.x \in wk \/ it.x \notin blob[R0n]
+            THEN wl' = wl \ {it} /\ UNCHANGED <<wk, wr>>
+            ELSE /\ wk' = wk \cup {it.x} /\ UNCHANGED wr
+                 /\ wl' = (wl \ {it}) \cup {MItem(c) : c \in KidsOf(it.x)}
+                              \cup {RItem(x.s) : x \in {y \in iv.resp : y.s = it.x /\ RespTracked(R0n, y)}}
+       ELSE IF it.x \in wr
+            THEN wl' = wl \ {it} /\ UNCHANGED <<wk, wr>>
+            ELSE /\ wr' = wr \cup {it.x} /\ UNCHANGED wk
+                 /\ wl' = (wl \ {it}) \cup {MItem(d) : d \in RList(R0n, it.x)}
+  /\ UNCHANGED <<vars, iv, stage>>
+WalkRescan ==
+  /\ stage = 2 /\ wl = {}
+  /\ LET R == {x.s : x \in {y \in iv.resp : y.s \notin wr /\ RList(R0n, y.s) \cap wk # {}}} IN
+     IF R = {} \/ ~WalkRescans THEN stage' = 3 /\ UNCHANGED wl ELSE wl' = {RItem(s) : s \in R} /\ UNCHANGED stage
+  /\ UNCHANGED <<vars, iv, wk, wr>>
+MCWalkSpec == MCInit /\ [][MCNext \/ WalkStart \/ WalkPop \/ WalkRescan]_mvars
+WalkAgrees == stage = 3 => LET F == Walk(R0n, iv) IN wk = F.w /\ wr = F.wr
 
 NoRescan == FALSE      \* (cfg of the sanity run: Rescan <- NoRescan)
 Safe   == stage = 1 => ImplSafe(R0n, iv)
